@@ -4,16 +4,17 @@
 /// progress of the double loop `for u in 0..n { for v in u+1..n { .. } }`: the pair a < b has been decided
 spec fn decided(a: int, b: int, u: int, v: int) -> bool { a < u || (a == u && b < v) }
 
+/// loop state of the pair a < b: decided pairs carry exactly one arc, undecided pairs none
+spec fn pair_state(ab: bool, ba: bool, dec: bool) -> bool { if dec { ab != ba } else { !ab && !ba } }
+
 impl AdjacencyMatrix {
     /// C15: exactly one arc between every pair of distinct vertices
     spec fn tournament(&self) -> bool {
         forall|a: int, b: int| #![trigger self.has(a, b)] 0 <= a < self.order && 0 <= b < self.order && a != b ==> self.has(a, b) != self.has(b, a)
     }
 
-    /// loop state: decided pairs carry exactly one arc, undecided pairs none
     spec fn tour_upto(&self, u: int, v: int) -> bool {
-        forall|a: int, b: int| #![trigger self.has(a, b)] 0 <= a < b < self.order ==>
-            if decided(a, b, u, v) { self.has(a, b) != self.has(b, a) } else { !self.has(a, b) && !self.has(b, a) }
+        forall|a: int, b: int| #![trigger self.has(a, b)] 0 <= a < b < self.order ==> pair_state(self.has(a, b), self.has(b, a), decided(a, b, u, v))
     }
 
     /*@fn impl=AdjacencyMatrix trait=RandomTournament name=random_tournament
@@ -35,16 +36,46 @@ impl AdjacencyMatrix {
         digraph.tour_upto(u as int, v as int),
     @loop_start 2
         let ghost d0 = digraph;
+        let ghost mut na: (int, int) = (0, 0);
+        // in particular the documented panics of add_arc (self-loop, id out of range) cannot occur below
         assert(u < v < order);
+    @after #1 `digraph.add_arc(`
+        proof { na = (u as int, v as int); }
+    @after #2 `digraph.add_arc(`
+        proof { na = (v as int, u as int); }
     @loop_end 2
-        proof {
-            assert forall|a: int, b: int| #![trigger digraph.has(a, b)] 0 <= a < b < digraph.order implies
-                (if decided(a, b, u as int, v + 1) { digraph.has(a, b) != digraph.has(b, a) } else { !digraph.has(a, b) && !digraph.has(b, a) }) by {
-                assert(d0.has(a, b) == d0.has(a, b) && d0.has(b, a) == d0.has(b, a));
-                assert(digraph.has(b, a) == digraph.has(b, a));
-            }
-        }
+        proof { lemma_matrix_tour_step(d0, digraph, u as int, v as int, na.0, na.1); }
+    @fn_end
+        proof { lemma_matrix_tour_done(digraph); }
     @*/
+}
+
+/// adding the arc (x, y) in {(u, v), (v, u)} decides the pair u < v and leaves the other pairs alone
+proof fn lemma_matrix_tour_step(d0: AdjacencyMatrix, d1: AdjacencyMatrix, u: int, v: int, x: int, y: int)
+    requires
+        d1.order == d0.order,
+        0 <= u < v < d0.order,
+        (x == u && y == v) || (x == v && y == u),
+        forall|a: int, b: int| #![trigger d1.has(a, b)] d1.has(a, b) == (d0.has(a, b) || (a == x && b == y)),
+        d0.tour_upto(u, v),
+    ensures
+        d1.tour_upto(u, v + 1),
+{
+    assert forall|a: int, b: int| #![trigger d1.has(a, b)] 0 <= a < b < d1.order implies
+        pair_state(d1.has(a, b), d1.has(b, a), decided(a, b, u, v + 1)) by {
+        assert(pair_state(d0.has(a, b), d0.has(b, a), decided(a, b, u, v)));
+        assert(d1.has(b, a) == (d0.has(b, a) || (b == x && a == y)));
+    }
+}
+
+proof fn lemma_matrix_tour_done(d: AdjacencyMatrix)
+    requires d.tour_upto(d.order as int, 0),
+    ensures d.tournament(),
+{
+    assert forall|a: int, b: int| #![trigger d.has(a, b)] 0 <= a < d.order && 0 <= b < d.order && a != b implies d.has(a, b) != d.has(b, a) by {
+        if a < b { assert(pair_state(d.has(a, b), d.has(b, a), decided(a, b, d.order as int, 0))); }
+        else { assert(pair_state(d.has(b, a), d.has(a, b), decided(b, a, d.order as int, 0))); }
+    }
 }
 
 //@file src/repr/adjacency_list/mod.rs
@@ -67,6 +98,8 @@ impl AdjacencyList {
         r.wf(),
         r.ord() == order,
         r.tournament(),
+    @panic 1
+        assert(order == 0);
     @loop 1
     invariant
         order > 1,
@@ -83,39 +116,20 @@ impl AdjacencyList {
         let ghost a0 = arcs@;
         let ghost mut na: (int, int) = (0, 0);
         assert(u < v < order);
-    @after `let _ = unsafe { arcs.get_unchecked_mut(u).insert(v) };`
+    @after #1 `let _ = unsafe { arcs.get_unchecked_mut(`
         proof {
             na = (u as int, v as int);
-            assert(arcs@.len() == a0.len() && arcs@[u as int]@ == a0[u as int]@.insert(v));
-            assert forall|a: int| 0 <= a < a0.len() && a != u implies #[trigger] arcs@[a] == a0[a] by {}
-            assert forall|a: int, b: int| #![trigger rows_has(arcs@, a, b)] rows_has(arcs@, a, b) == (rows_has(a0, a, b) || (a == u && b == v)) by {}
+            lemma_rows_insert(a0, arcs@, u as int, v);
         }
-    @after `let _ = unsafe { arcs.get_unchecked_mut(v).insert(u) };`
+    @after #2 `let _ = unsafe { arcs.get_unchecked_mut(`
         proof {
             na = (v as int, u as int);
-            assert(arcs@.len() == a0.len() && arcs@[v as int]@ == a0[v as int]@.insert(u));
-            assert forall|a: int| 0 <= a < a0.len() && a != v implies #[trigger] arcs@[a] == a0[a] by {}
-            assert forall|a: int, b: int| #![trigger rows_has(arcs@, a, b)] rows_has(arcs@, a, b) == (rows_has(a0, a, b) || (a == v && b == u)) by {}
+            lemma_rows_insert(a0, arcs@, v as int, u);
         }
     @loop_end 2
-        proof {
-            let a1 = arcs@;
-            assert(na == (u as int, v as int) || na == (v as int, u as int));
-            assert forall|a: int, b: int| #![trigger rows_has(a1, a, b)] rows_has(a1, a, b) == (rows_has(a0, a, b) || (a == na.0 && b == na.1)) by {}
-            assert forall|a: int, b: int| #![trigger rows_has(a1, a, b)] 0 <= a < b < a1.len() implies
-                (if decided(a, b, u as int, v + 1) { rows_has(a1, a, b) != rows_has(a1, b, a) } else { !rows_has(a1, a, b) && !rows_has(a1, b, a) }) by {
-                assert(rows_has(a0, a, b) == rows_has(a0, a, b) && rows_has(a0, b, a) == rows_has(a0, b, a));
-                assert(rows_has(a1, b, a) == rows_has(a1, b, a));
-            }
-        }
+        proof { lemma_rows_tour_step(a0, arcs@, u as int, v as int, na.0, na.1); }
     @fn_end
-        proof {
-            let g = AdjacencyList { arcs };
-            assert forall|a: int, b: int| #![trigger g.has(a, b)] g.has(a, b) == rows_has(arcs@, a, b) by {}
-            assert forall|a: int, b: int| #![trigger g.has(a, b)] 0 <= a < g.ord() && 0 <= b < g.ord() && a != b implies g.has(a, b) != g.has(b, a) by {
-                if a < b { assert(rows_has(arcs@, a, b) != rows_has(arcs@, b, a)); } else { assert(rows_has(arcs@, b, a) != rows_has(arcs@, a, b)); }
-            }
-        }
+        proof { lemma_rows_tour_done(AdjacencyList { arcs }); }
     @*/
 }
 
@@ -129,10 +143,59 @@ spec fn rows_wf(rows: Seq<BTreeSet<usize>>) -> bool {
     forall|a: int, x: usize| 0 <= a < rows.len() && #[trigger] rows[a]@.contains(x) ==> x < rows.len() && x != a
 }
 
-/// loop state: decided pairs carry exactly one arc, undecided pairs none
 spec fn rows_tour_upto(rows: Seq<BTreeSet<usize>>, u: int, v: int) -> bool {
     forall|a: int, b: int| #![trigger rows_has(rows, a, b)] 0 <= a < b < rows.len() ==>
-        if decided(a, b, u, v) { rows_has(rows, a, b) != rows_has(rows, b, a) } else { !rows_has(rows, a, b) && !rows_has(rows, b, a) }
+        pair_state(rows_has(rows, a, b), rows_has(rows, b, a), decided(a, b, u, v))
+}
+
+/// inserting y into row x adds exactly the arc (x, y) and keeps the rows valid
+proof fn lemma_rows_insert(r0: Seq<BTreeSet<usize>>, r1: Seq<BTreeSet<usize>>, x: int, y: usize)
+    requires
+        r1.len() == r0.len(),
+        0 <= x < r0.len(), y < r0.len(), x != y,
+        r1[x]@ == r0[x]@.insert(y),
+        forall|a: int| 0 <= a < r0.len() && a != x ==> #[trigger] r1[a] == r0[a],
+        rows_wf(r0),
+    ensures
+        rows_wf(r1),
+        forall|a: int, b: int| #![trigger rows_has(r1, a, b)] rows_has(r1, a, b) == (rows_has(r0, a, b) || (a == x && b == y)),
+{
+    assert forall|a: int, z: usize| 0 <= a < r1.len() && #[trigger] r1[a]@.contains(z) implies z < r1.len() && z != a by {
+        if a != x { assert(r1[a] == r0[a]); assert(r0[a]@.contains(z)); }
+        else if z != y { assert(r0[a]@.contains(z)); }
+    }
+    assert forall|a: int, b: int| #![trigger rows_has(r1, a, b)] rows_has(r1, a, b) == (rows_has(r0, a, b) || (a == x && b == y)) by {
+        if 0 <= a < r0.len() && a != x { assert(r1[a] == r0[a]); }
+    }
+}
+
+proof fn lemma_rows_tour_step(r0: Seq<BTreeSet<usize>>, r1: Seq<BTreeSet<usize>>, u: int, v: int, x: int, y: int)
+    requires
+        r1.len() == r0.len(),
+        0 <= u < v < r0.len(),
+        (x == u && y == v) || (x == v && y == u),
+        forall|a: int, b: int| #![trigger rows_has(r1, a, b)] rows_has(r1, a, b) == (rows_has(r0, a, b) || (a == x && b == y)),
+        rows_tour_upto(r0, u, v),
+    ensures
+        rows_tour_upto(r1, u, v + 1),
+{
+    assert forall|a: int, b: int| #![trigger rows_has(r1, a, b)] 0 <= a < b < r1.len() implies
+        pair_state(rows_has(r1, a, b), rows_has(r1, b, a), decided(a, b, u, v + 1)) by {
+        assert(pair_state(rows_has(r0, a, b), rows_has(r0, b, a), decided(a, b, u, v)));
+        assert(rows_has(r1, b, a) == (rows_has(r0, b, a) || (b == x && a == y)));
+    }
+}
+
+proof fn lemma_rows_tour_done(g: AdjacencyList)
+    requires rows_tour_upto(g.arcs@, g.ord(), 0), rows_wf(g.arcs@), g.ord() > 0,
+    ensures g.tournament(), g.wf(),
+{
+    let rows = g.arcs@;
+    assert forall|a: int, b: int| #![trigger g.has(a, b)] 0 <= a < g.ord() && 0 <= b < g.ord() && a != b implies g.has(a, b) != g.has(b, a) by {
+        assert(g.has(a, b) == rows_has(rows, a, b) && g.has(b, a) == rows_has(rows, b, a));
+        if a < b { assert(pair_state(rows_has(rows, a, b), rows_has(rows, b, a), decided(a, b, g.ord(), 0))); }
+        else { assert(pair_state(rows_has(rows, b, a), rows_has(rows, a, b), decided(b, a, g.ord(), 0))); }
+    }
 }
 
 // ---- EdgeList side (own module: one module-level `broadcast use` per module) ----
@@ -147,10 +210,8 @@ impl EdgeList {
         forall|a: int, b: int| #![trigger self.has(a, b)] 0 <= a < self.ord() && 0 <= b < self.ord() && a != b ==> self.has(a, b) != self.has(b, a)
     }
 
-    /// loop state: decided pairs carry exactly one arc, undecided pairs none
     spec fn tour_upto(&self, u: int, v: int) -> bool {
-        forall|a: int, b: int| #![trigger self.has(a, b)] 0 <= a < b < self.ord() ==>
-            if decided(a, b, u, v) { self.has(a, b) != self.has(b, a) } else { !self.has(a, b) && !self.has(b, a) }
+        forall|a: int, b: int| #![trigger self.has(a, b)] 0 <= a < b < self.ord() ==> pair_state(self.has(a, b), self.has(b, a), decided(a, b, u, v))
     }
 
     /*@fn trait=Empty name=trivial file=src/gen/empty.rs dropwhere=Self
@@ -179,15 +240,44 @@ impl EdgeList {
         digraph.tour_upto(u as int, v as int),
     @loop_start 2
         let ghost d0 = digraph;
+        let ghost mut na: (int, int) = (0, 0);
+        // in particular the documented panics of add_arc (self-loop, id out of range) cannot occur below
         assert(u < v < order);
+    @after #1 `digraph.add_arc(`
+        proof { na = (u as int, v as int); }
+    @after #2 `digraph.add_arc(`
+        proof { na = (v as int, u as int); }
     @loop_end 2
-        proof {
-            assert forall|a: int, b: int| #![trigger digraph.has(a, b)] 0 <= a < b < digraph.ord() implies
-                (if decided(a, b, u as int, v + 1) { digraph.has(a, b) != digraph.has(b, a) } else { !digraph.has(a, b) && !digraph.has(b, a) }) by {
-                assert(d0.has(a, b) == d0.has(a, b) && d0.has(b, a) == d0.has(b, a));
-                assert(digraph.has(b, a) == digraph.has(b, a));
-            }
-        }
+        proof { lemma_edge_tour_step(d0, digraph, u as int, v as int, na.0, na.1); }
+    @fn_end
+        proof { lemma_edge_tour_done(digraph); }
     @*/
+}
+
+proof fn lemma_edge_tour_step(d0: EdgeList, d1: EdgeList, u: int, v: int, x: int, y: int)
+    requires
+        d1.ord() == d0.ord(),
+        0 <= u < v < d0.ord(),
+        (x == u && y == v) || (x == v && y == u),
+        forall|a: int, b: int| #![trigger d1.has(a, b)] d1.has(a, b) == (d0.has(a, b) || (a == x && b == y)),
+        d0.tour_upto(u, v),
+    ensures
+        d1.tour_upto(u, v + 1),
+{
+    assert forall|a: int, b: int| #![trigger d1.has(a, b)] 0 <= a < b < d1.ord() implies
+        pair_state(d1.has(a, b), d1.has(b, a), decided(a, b, u, v + 1)) by {
+        assert(pair_state(d0.has(a, b), d0.has(b, a), decided(a, b, u, v)));
+        assert(d1.has(b, a) == (d0.has(b, a) || (b == x && a == y)));
+    }
+}
+
+proof fn lemma_edge_tour_done(d: EdgeList)
+    requires d.tour_upto(d.ord(), 0),
+    ensures d.tournament(),
+{
+    assert forall|a: int, b: int| #![trigger d.has(a, b)] 0 <= a < d.ord() && 0 <= b < d.ord() && a != b implies d.has(a, b) != d.has(b, a) by {
+        if a < b { assert(pair_state(d.has(a, b), d.has(b, a), decided(a, b, d.ord(), 0))); }
+        else { assert(pair_state(d.has(b, a), d.has(a, b), decided(b, a, d.ord(), 0))); }
+    }
 }
 } // mod edge_gen
